@@ -703,7 +703,9 @@ class FnT:
         if kind == 'tuple':
             return self.tx_list(e[1], env, ind, lambda ts, env, ind: k('(' + ', '.join(ts) + ')', env, ind))
         if kind == 'cast':
-            map_type(e[2], self.cfg)   # only integer casts
+            # only lossless widening casts (to usize / u64 / u128) keep their value on `Nat`
+            if e[2].replace(' ', '') not in ('usize', 'u64', 'u128'):
+                raise TErr(f'{self.f["where"]}: cast `as {e[2]}` may truncate; not in the supported subset')
             return self.tx(e[1], env, ind, k)
         if kind == 'un':
             if e[1] in ('*', '&'): return self.tx(e[2], env, ind, k)
@@ -1299,7 +1301,7 @@ class Unit:
         return False
 
     def lean_fn_name(self, f):
-        return f'{self.struct_short(f["target"])}.{f["name"]}'
+        return f'{self.struct_short(f["target"])}.{lname(f["name"])}'
     def struct_short(self, name):
         return self.struct_types.get(name, (name, None))[0]
     def struct_lean_type(self, name):
@@ -1367,9 +1369,10 @@ def main():
         'LestmostFindIterator': ('LestmostFindIterator', 'LestmostFindIterator V'),
         'U8SliceIterator': ('U8SliceIterator', 'U8SliceIterator V'),
         'MatchKind': ('MatchKind', 'Nat'),
+        'Match': ('Match', 'Rs.Match V'),
     }
     b_types = dict(common_types, **{k: v[1] for k, v in b_structs.items()})
-    b_sel = mk_sel + [('U8SliceIterator', 'new'), ('DoubleArrayAhoCorasick', 'child_index_unchecked'), ('DoubleArrayAhoCorasick', 'next_state_id_unchecked'),
+    b_sel = mk_sel + [('Match', 'start'), ('Match', 'end'), ('Match', 'value')] + [('U8SliceIterator', 'new'), ('DoubleArrayAhoCorasick', 'child_index_unchecked'), ('DoubleArrayAhoCorasick', 'next_state_id_unchecked'),
              ('DoubleArrayAhoCorasick', 'next_state_id_leftmost_unchecked'),
              ('U8SliceIterator', 'next'),
              ('FindIterator', 'next'), ('FindOverlappingIterator', 'next'),
